@@ -408,6 +408,7 @@ def lemma_registration_matches_loader():
     from pyvc import extract
     mod, regs = registrations()
     st = State()
+    reads = lemma_registration_matches_loader.reads = []
     st.oblige("seven lazy groups are registered", z3.BoolVal(len(regs) == 7), kind="lemma", info={"found": len(regs)}, assume_after=False)
     for names, loader, flags in regs:
         fn = mod.toplevel(loader)
@@ -427,6 +428,8 @@ def lemma_registration_matches_loader():
                     if isinstance(t, ast.Attribute) and isinstance(t.value, ast.Name) and t.value.id in flags and t.attr in names:
                         assigned.add(t.value.id)
         registered = {c for c, on in flags.items() if on}
+        reads.append("periodictable.%s.%s" % target)
+        # (loaders that give no class-level value by a plain `Class.name = ...` statement have nothing to compare)
         if assigned:
             # the name is independent of what the sources say (a changed registration must fail THIS obligation)
             st.oblige("group %s: classes registered for lazy loading == classes given a class-level value by its loader" % names[0],
